@@ -1,4 +1,6 @@
 """C14 memory state store behaves as an isolated per-index typed map."""
+import math
+
 import rxsci as rs
 from rxsci.state.memory_store import MemoryStore
 from vp.engine import Ob
@@ -9,7 +11,7 @@ META = dict(
     explanation='The real MemoryStore (no Rx involved) is compared with a dictionary model. (a) One step from an arbitrary representable state: K slots, each with a solver-chosen marker (cleared / not set / set) and a symbolic value, '
                 'built through the real API, then one operation add_key / set / get / del_key on a solver-chosen index (beyond the current length = growth by sparse index); after it every index must read exactly what the model says: '
                 'the touched index as specified, every other index exactly as before (get, is_cleared, is_set, iterate). (b) Histories of 3 (thorough 4) solver-chosen operations from the empty store over sparse / descending / repeated indices, '
-                'reads compared after every step. For every data type: int, uint, float, bool, obj, with and without default value. (c) mapper: one operation (lookup-or-create as group_by does, parent key completion + re-creation, read) from an arbitrary map state of 2 parent keys x 2 map keys inserted in a solver-chosen order: '
+                'reads compared after every step. For every data type: int, uint, float, bool, obj, with and without default value. (c) mapper: one operation (lookup-or-create as group_by does, parent key completion + re-creation, read) from an arbitrary map state of 2 parent keys x 2 map keys inserted in a solver-chosen order after an earlier parent with 0..2 groups has completed: '
                 'indices handed out are never equal to one in use, get_map returns the mapped index or NOTSET, iterate_map enumerates exactly the mapped keys in insertion order.',
     bounds=dict(quick='K <= 3 slots, touched index in {first, last, beyond the end}, values any int (floats: 2 concrete doubles chosen by the solver), histories of 3 operations over indices {0,2,4}, mapper: 16 pre-states x 12 operations',
                 thorough='K <= 4 slots, histories of 4 operations'),
@@ -29,6 +31,9 @@ TYPES = {
     'bool_d': (bool, lambda v: v > 0, False),
     'obj': ('obj', lambda v: (v, 'o'), None),
     'obj_d': ('obj', lambda v: (v, 'o'), 'dflt'),
+    # equal-but-distinguishable values: 1 == True == 1.0, 0.0 == -0.0: the slot must read back the LAST one written, with its type and sign
+    'obj_eq': ('obj', lambda v: (1 if v <= 0 else (True if v == 1 else 1.0)), None),
+    'float_z': (float, lambda v: 0.0 if v > 0 else -0.0, None),
 }
 NMAX = 5
 IDX = [0, 2, 4]      # sparse index candidates of the history form
@@ -80,6 +85,8 @@ def _reads_ok(st, m, dt):
         else:
             if g is NS or g != e[1] or not st.is_set((i,)):
                 return 'index %d should read %r, got %r' % (i, e[1], g)
+            if type(g) is not type(e[1]) or (type(g) is float and math.copysign(1.0, g) != math.copysign(1.0, e[1])):
+                return 'index %d should read %r (last value written), got %r' % (i, e[1], g)
             if dt is bool and type(g) is not bool:
                 return 'index %d: bool store returned %r' % (i, type(g))
             exp_it.append(((i,), e[1], True))
@@ -219,15 +226,26 @@ def _mkey(i):
 def mapper_step(p):
     """one mapper operation from an arbitrary map state: 2 parent keys (indices 0 and 3), each with a solver-chosen
     subset of 2 map keys mapped, inserted in a solver-chosen order through the real API"""
-    sig = [('s0', 'int'), ('s1', 'int'), ('rev', 'bool'), ('op', 'int'), ('k', 'bool'), ('mi', 'bool')]
-    pre = ['0 <= s0 <= 3', '0 <= s1 <= 3', '0 <= op <= 2']
+    sig = [('s0', 'int'), ('s1', 'int'), ('rev', 'bool'), ('op', 'int'), ('k', 'bool'), ('mi', 'bool'), ('dead', 'int')]
+    pre = ['0 <= s0 <= 3', '0 <= s1 <= 3', '0 <= op <= 2', '0 <= dead <= 2']
 
     def body(a):
-        s0, s1, rev, op, kk, mi = a
+        s0, s1, rev, op, kk, mi, dead = a
         st = MemoryStore(data_type='mapper')
         model = {}
         used = []
         plan = []
+        # history before the arbitrary state: a parent key (index 6) that had 0..2 groups and has completed the way group_by completes it
+        # (del_map of every group, then del_key): its indices are no longer in use and may or may not be recycled
+        nd = _sel(dead, 3)
+        if nd:
+            st.add_key((6,))
+            gone = [st.add_map((6,), 'd%d' % j) for j in range(nd)]
+            if len(set(gone)) != nd:
+                return fail(stage='pre-state', problem='completed parent got duplicate indices %r' % (gone,))
+            for j in range(nd):
+                st.del_map((6,), 'd%d' % j)
+            st.del_key((6,))
         for key, sub in ((0, _sel(s0, 4)), (3, _sel(s1, 4))):
             st.add_key((key,))
             model[key] = []
@@ -287,11 +305,16 @@ def obligations(tier, seed):
     q = tier == 'quick'
     b = 150 if q else 900
     for t in TYPES:
-        branchy = t in ('float', 'bool', 'bool_d')      # the value conversion forks once per slot value
+        branchy = t in ('float', 'bool', 'bool_d', 'obj_eq', 'float_z')      # the value conversion forks once per slot value
+        eqv = t in ('obj_eq', 'float_z')
         for k in range(0, (3 if q else 4) + 1):
             if branchy and k > (2 if q else 3):
                 continue
+            if eqv and k > (1 if q else 2):
+                continue
             obs.append(Ob(PROP, 'step', dict(k=k, type=t), budget=b, group='step', bound=dict(slots=k, type=t, step='one operation from an arbitrary state')))
+        if eqv:
+            continue
         kd = 2 if (branchy and q) else 3
         obs.append(Ob(PROP, 'step', dict(k=kd, type=t, order='desc'), budget=b, group='step', bound=dict(slots=kd, type=t, construction='descending indices')))
         if q and t not in ('int', 'bool_d', 'obj', 'float', 'uint_d'):
